@@ -434,8 +434,16 @@ def check_polylin(case, rec):
     try:
         A_.coeffs[k_] = 0.25 * sc
         vB = np.broadcast_to(np.asarray(cls().poly(r, p), float), r.shape)
+        # ... and the object whose coefficient was set evaluates that coefficient (the default vector is written with
+        # integer zeros; the value set is not an integer)
+        vA = np.broadcast_to(np.asarray(A_.poly(r, p), float), r.shape)
+        ck = np.zeros(len(A_.coeffs)); ck[k_] = 0.25 * sc
+        wA = np.broadcast_to(np.asarray(cls(coeffs=ck).poly(r, p), float), r.shape)
     finally:
         A_.coeffs[k_] = old_
+    rec.close('poly-linear', vA, wA, TOL_LIN, scale=max(0.25 * sc * float(np.max(nrm)), 1e-300), key='poly-linear:element-assignment',
+              msg=f'{fam}: a default-constructed object whose coefficient {k_} was set to {0.25 * sc:.3g} does not evaluate '
+                  f'{0.25 * sc:.3g} x Z_{k_}')
     rec.check('poly-linear', bool(np.all(vB == 0.0)), key='poly-linear:default-object-is-zero',
               msg=f'{fam}: a freshly default-constructed object evaluates to {float(np.max(np.abs(vB))):.3e} after coefficient {k_} '
                   f'of another default-constructed object was set')
